@@ -105,6 +105,7 @@ fn main() {
             extra.push(("exhaustive_states".into(), states.to_string()));
             extra.push(("exhaustive_truncated".into(), trunc.to_string()));
             extra.push(("exhaustive_transitions".into(), out.lines.to_string()));
+            arena_edge(&mut out, suite, &mut rng, if thorough { 40 } else { 8 });
             let n_hist = if thorough { 600 } else { 60 };
             for h in 0..n_hist {
                 let cfg = RandCfg {
@@ -123,6 +124,10 @@ fn main() {
             seg::seg_random(&mut out, &mut rng, if thorough { 300 } else { 40 }, if thorough { 300 } else { 120 });
         }
         "seg-masks" => { seg::seg_mask_table(&mut out); }
+        "seg-pairs" => {
+            seg::seg_pairs(&mut out, if thorough { 1 } else { 8 });
+            extra.push(("pair_stride".into(), (if thorough { 1 } else { 8 }).to_string()));
+        }
         "seg-layout" => { seg::seg_layouts(&mut out, &mut rng, thorough); }
         s if s.starts_with("inject-") => {
             let coll = &s[7..];
